@@ -4,6 +4,9 @@ Shared lemmas for the equality proofs `RbV/Thm/GenSrc*.lean` (translated functio
 a fixed-size vector that the Rust code indexes by a byte is the tabulation `tab n f` of the function the mirror model
 uses.
 -/
+-- the simp sets name every fact a harmless rewrite of the Rust text may need; on the pinned text some are unused
+set_option linter.unusedSimpArgs false
+
 namespace RbV.Thm.GenSrc
 open RbV RbV.Rs
 
@@ -37,5 +40,21 @@ theorem idx_tab (n : Nat) (f : Nat → Nat) (c : Nat) (h : c < n) : Rs.idx (tab 
 theorem setIdx_tab (n : Nat) (f : Nat → Nat) (c v : Nat) (h : c < n) :
     Rs.setIdx (tab n f) c v = Res.ok (tab n (fun x => if x = c then v else f x)) := by
   rw [Rs.setIdx_ok (by rw [tab_length]; exact h), tab_set n f c v h]
+
+/-! ### a vector element that is written and read back -/
+
+theorem getD_of_lt {α : Type} (l : List α) (i : Nat) (d : α) (h : i < l.length) : l.getD i d = l[i] := by
+  rw [List.getD_eq_getElem?_getD, List.getElem?_eq_getElem h]; rfl
+
+theorem idx_getD {α : Type} (l : List α) (i : Nat) (d : α) (h : i < l.length) : Rs.idx l i = Res.ok (l.getD i d) := by
+  rw [getD_of_lt l i d h]; exact Rs.idx_ok h
+
+theorem idx_set_self {α : Type} (l : List α) (i : Nat) (v : α) (h : i < l.length) :
+    Rs.idx (l.set i v) i = Res.ok v :=
+  Rs.idx_of_getElem? (by simp [h])
+
+theorem setIdx_set {α : Type} (l : List α) (i : Nat) (v v' : α) (h : i < l.length) :
+    Rs.setIdx (l.set i v) i v' = Res.ok (l.set i v') := by
+  rw [Rs.setIdx_ok (by simpa using h), List.set_set]
 
 end RbV.Thm.GenSrc
